@@ -1480,7 +1480,7 @@ class SpaceManager(SharedSpaceOperations):
             basevalue = value._impl.idstr
             for subspace in self._get_subs(space):
                 if name in subspace.own_refs:
-                    break
+                    continue
                 else:
                     subvalue = self._graph.get_relative(
                         subspace.idstr, space.idstr,
